@@ -36,6 +36,8 @@ SPACES = [
      ["drop", "uniform", [0.0, 0.9]], ["units", "finrange", [16.0, 256.0, 16]], ["k", "const", [3]]],
     [["o", "ordinal", [["s", "m", "l", "xl"]]], ["wd", "reverseloguniform", [0.5, 0.999]], ["n", "logfinrange", [8.0, 512.0, 7]]],
     [["x", "uniform", [0.0, 1.0]]],
+    [["opt", "choice", [["adam", "sgd", "rmsprop", "lamb", "adagrad"]]], ["act", "choice", [["relu", "tanh", "gelu", "swish"]]],
+     ["norm", "choice", [["batch", "layer", "none"]]], ["size", "ordinal", [["xs", "s", "m", "l"]]]],
 ]
 
 MODEL_FREE_VARIANTS = [
@@ -70,7 +72,7 @@ OTHER_KINDS = [["fifo", {"searcher": "random"}], ["hyperband", {"searcher": "ran
 # ---------------------------------------------------------------------------------------------------------
 # case generation
 # ---------------------------------------------------------------------------------------------------------
-def gen_sched_case(rng, variant, gp=False, profile=False):
+def gen_sched_case(rng, variant, gp=False, profile=False, rich=False):
     kind, base, cfg = variant
     p = dict(base)
     if kind in ("hyperband", "synchb", "dehb"):
@@ -105,11 +107,28 @@ def gen_sched_case(rng, variant, gp=False, profile=False):
                                "opt_nstarts": rng.choice([1, 2]), "num_init_candidates": rng.choice([10, 30])}
         if base.get("searcher") == "bayesopt" and rng.random() < 0.3:
             p["search_options"]["opt_skip_init_length"] = 2
-    elif rng.random() < 0.3 and base.get("searcher") in ("random", None) and kind != "dehb":
-        p["search_options"] = {"allow_duplicates": rng.random() < 0.5}
     space = rng.choice(SPACES[:3] if gp else SPACES)
     if base.get("searcher") == "grid":
-        space = rng.choice([SPACES[0], SPACES[2], SPACES[4]])
+        space = rng.choice([SPACES[0], SPACES[2], SPACES[4], SPACES[5]])
+    # searcher options inside the property's quantifier: restrict_configurations, points_to_evaluate (entries inside
+    # / outside the restricted list, partial entries, the empty list), allow_duplicates both ways
+    searcher = base.get("searcher")
+    opts = None
+    if kind != "dehb" and rng.random() < (0.85 if rich else 0.4):
+        opts = dict(opt_seed=rng.randrange(2 ** 31), restrict_n=0, p2e_given=False)
+        if searcher in ("random", "bayesopt") or kind in ("pbt", "msr"):
+            if rng.random() < (0.8 if rich else 0.5):
+                opts["restrict_n"] = rng.choice([6, 12, 24, 40])
+        if rng.random() < (0.9 if rich else 0.7):
+            opts["p2e_given"] = True
+            opts["p2e_inside"] = rng.choice([0, 1, 2, 3]) if opts["restrict_n"] else 0
+            opts["p2e_outside"] = rng.choice([0, 0, 1, 2])
+            opts["p2e_partial"] = rng.choice([0, 0, 1, 2]) if not opts["restrict_n"] else 0
+        p["opts"] = opts
+    if searcher in ("random", "bayesopt") and rng.random() < 0.4:
+        so = dict(p.get("search_options") or {})
+        so["allow_duplicates"] = rng.random() < 0.5
+        p["search_options"] = so
     case = dict(kind=kind, config=cfg, params=p, space=space, random_seed=rng.randrange(2 ** 31),
                 event_seed=rng.randrange(2 ** 31), perturb_seed=rng.randrange(2 ** 31),
                 workers=rng.choice([1, 2, 3, 4]), steps=rng.choice([18, 30] if gp else [25, 60, 120]),
@@ -239,6 +258,15 @@ def judge(ctx, case, ra, rb, hashseeds, facts=None, funcmap=None):
         ctx.count(("sched", case), nontrivial=nontrivial)
         ctx.h("variant", "%s/%s" % (sig["scheduler"], sig["variant"]))
         ctx.h("clock", "real (no TimeKeeper)" if case.get("no_clock") else "scripted TimeKeeper")
+        o = case["params"].get("opts") or {}
+        ctx.h("options", "restrict_configurations" if o.get("restrict_n") else "no restrict_configurations")
+        ctx.h("options", "points_to_evaluate: " + ("default" if not o.get("p2e_given") else (
+            "empty" if not (o.get("p2e_inside") or o.get("p2e_outside") or o.get("p2e_partial")) else
+            "+".join(k[4:] for k in ("p2e_inside", "p2e_outside", "p2e_partial") if o.get(k)))))
+        ad = (case["params"].get("search_options") or {}).get("allow_duplicates")
+        ctx.h("options", "allow_duplicates=%s" % ("default" if ad is None else ad))
+        if case.get("targeted"):
+            ctx.h("targeting", "targeted_cases_judged")
         ctx.h("trace_len", min(len(tr) // 20 * 20, 120))
         for k in ("start", "resume", "result", "error", "complete"):
             ctx.h("events", k, kinds.get(k, 0))
@@ -325,8 +353,87 @@ def new_sites(facts, allow):
                 if cfg not in T.MODEL_FREE and kind in ("ModuleGlobalWrite", "ClassAttrWrite") and \
                         cfg in ("hyperband_dyhpo", "synchb_bayesopt"):
                     continue
-                out.append((cfg, name, kind, where))
+                out.append((cfg, name, kind, where, nd, list(lits)))
     return out
+
+
+def site_targets(facts, sites):
+    """{cfg: [[file, first line, last line, [site lines]]]}: the functions that contain the newly reachable sites"""
+    by_fid = {fid: (fn, lo, hi) for q, (fn, lo, hi, fid) in facts["funcs"].items()}
+    out = {}
+    for cfg, name, kind, where, nd, lits in sites:
+        rng_ = by_fid.get(nd)
+        if rng_ is None:
+            k, qual = facts["nodes"][nd - 1]
+            if k == "D" and qual.endswith("@rsnone") and qual[:-7] in facts["funcs"]:
+                fn, lo, hi, _ = facts["funcs"][qual[:-7]]
+                rng_ = (fn, lo, hi)
+        if rng_ is None:
+            continue
+        lines = [int(m.group(2)) for m in re.finditer(r"(\S+\.py):(\d+)", where) if m.group(1) == rng_[0]]
+        t = [rng_[0], rng_[1], rng_[2], sorted(set(lines))]
+        if t not in out.setdefault(cfg, []):
+            out[cfg].append(t)
+    return out
+
+
+def guard_text(facts, lits):
+    tests = facts.get("tests", {})
+    return ["%s%s" % ("" if l % 2 == 0 else "not ", tests.get(str(l // 2), "t%d" % (l // 2))) for l in lits]
+
+
+def probe_and_target(ctx, rng, facts, sites, hashseed):
+    """coverage probe: run option-rich candidate cases of the affected configurations for a few steps under a line
+    tracer until the function (line) containing the new effect site is executed; the candidates that reach it are
+    turned into full twin-run cases (the constructor / searcher options that guard the site are thereby found by
+    execution, not guessed)"""
+    targets = site_targets(facts, sites)
+    cands = []
+    for cfg, tg in sorted(targets.items()):
+        vs = [(v, False) for v in MODEL_FREE_VARIANTS if v[2] == cfg] + [(v, True) for v in GP_VARIANTS if v[2] == cfg]
+        if not vs:
+            continue
+        per = max(1, (10 if vs[0][1] else 40) // len(vs))
+        for v, gp in vs:
+            for _ in range(per):
+                c = gen_sched_case(rng, v, gp=gp, rich=True)
+                c.update(steps=6 if not gp else 4, interleave=False, profile=False, targets=tg, no_clock=False)
+                cands.append(c)
+    if not cands:
+        return []
+    bs = batches_of(cands, 8)
+    with ThreadPoolExecutor(max_workers=8) as ex:
+        res = list(ex.map(lambda b: run_worker("A", hashseed, b), bs))
+    hits_line, hits_fn = [], []
+    for b, rs in zip(bs, res):
+        for c, r in zip(b, rs):
+            if r.get("hit_lines"):
+                hits_line.append(c)
+            elif r.get("hit_funcs"):
+                hits_fn.append(c)
+    chosen = (hits_line or hits_fn)
+    per_cfg = {}
+    full = []
+    for c in chosen:
+        if per_cfg.get(c["config"], 0) >= 10:
+            continue
+        per_cfg[c["config"]] = per_cfg.get(c["config"], 0) + 1
+        for k in range(2):
+            d = json.loads(json.dumps(c))
+            d.pop("targets", None)
+            d.update(steps=30 if d["kind"] in ("fifo",) and d["params"].get("searcher") in ("bayesopt",) else 40,
+                     interleave=d["config"] in T.MODEL_FREE, other_kinds=OTHER_KINDS if d["config"] in T.MODEL_FREE else [],
+                     targeted=True)
+            if k:
+                d["event_seed"], d["perturb_seed"] = rng.randrange(2 ** 31), rng.randrange(2 ** 31)
+            full.append(d)
+    ctx.notes.append("targeting: %d probe candidates for configurations %s; %d reached the site line, %d only the "
+                     "enclosing function; %d targeted twin cases added" % (
+                         len(cands), sorted(targets), len(hits_line), len(hits_fn), len(full)))
+    ctx.h("targeting", "probe_candidates", len(cands))
+    ctx.h("targeting", "site_line_reached", len(hits_line))
+    ctx.h("targeting", "targeted_twin_cases", len(full))
+    return full
 
 
 # ---------------------------------------------------------------------------------------------------------
@@ -475,34 +582,40 @@ def run(ctx, replay=None):
 
     # targeted search when the generated facts no longer satisfy the theorems
     boost = {}
+    targeted = []
     if proof_broken:
         try:
             sites = new_sites(facts, parse_allow_pairs())
         except Exception as e:   # pragma: no cover
             sites = []
             ctx.notes.append("could not compute newly reachable sites: %r" % (e,))
-        for cfg, name, kind, where in sites[:40]:
+        for cfg, name, kind, where, nd, lits in sites[:40]:
             boost[cfg] = boost.get(cfg, 0) + 1
         if sites:
             ctx.notes.append("proof step broken; reachable effect sites not covered by the allow-lists of props/C11.v: "
-                             + "; ".join("%s: %s %s (%s)" % s for s in sites[:12]))
+                             + "; ".join("%s: %s %s (%s) guards=%s" % (s[0], s[1], s[2], s[3], guard_text(facts, s[5]))
+                                         for s in sites[:12]))
+            try:
+                targeted = probe_and_target(ctx, rng, facts, sites[:40], hashseeds[0])
+            except Exception as e:
+                ctx.notes.append("targeting probe failed: %s" % str(e)[:300])
 
     n_mf = ctx.n(14, 80)
     n_gp = ctx.n(4, 16)
     n_sim = ctx.n(10, 60)
-    cases = list(corpus)
+    cases = list(corpus) + [c for c in targeted if c["config"] in T.MODEL_FREE]
     for v in MODEL_FREE_VARIANTS:
         k = n_mf * (4 if v[2] in boost else 1)
         for i in range(k):
             cases.append(gen_sched_case(rng, v, profile=(i == 0)))
-    gp_cases = []
+    gp_cases = [c for c in targeted if c["config"] not in T.MODEL_FREE]
     for v in GP_VARIANTS:
         k = n_gp * (3 if v[2] in boost else 1)
         for i in range(k):
             gp_cases.append(gen_sched_case(rng, v, gp=True, profile=(i == 0)))
     sim_cases = [gen_sim_case(rng) for _ in range(n_sim * (4 if "sim_experiment" in boost else 1))]
-    ctx.sample(dict(kind="twin scheduler case", case={k: v for k, v in cases[len(corpus)].items() if k != "other_kinds"}))
-    ctx.sample(dict(kind="twin GP case", case={k: v for k, v in gp_cases[0].items() if k != "other_kinds"}))
+    ctx.sample(dict(kind="twin scheduler case", case={k: v for k, v in cases[-1].items() if k != "other_kinds"}))
+    ctx.sample(dict(kind="twin GP case", case={k: v for k, v in gp_cases[-1].items() if k != "other_kinds"}))
     ctx.sample(dict(kind="twin simulated experiment", case=sim_cases[0]))
 
     batches = batches_of(gp_cases, ctx.n(6, 16)) + batches_of(cases, ctx.n(6, 28)) + batches_of(sim_cases, ctx.n(2, 6))
